@@ -582,8 +582,8 @@ def run_flavour(ctx, flavour, what):
     implmod = "TimersImplTrace" if flavour == "reactor" else "ClockImplTrace"
     ok = [(i, t) for i, t in enumerate(traces) if i not in bad]
     nsim = len(behs)
-    sample = [t for i, t in ok if (nex <= i < len(traces) - nsim) or (i < nex and i % ctx.pick(10, 3) == 0)
-              or (i >= len(traces) - nsim and i % ctx.pick(4, 1) == 0)]
+    sample = [t for i, t in ok if (nex <= i < len(traces) - nsim) or (i < nex and i % ctx.pick(20, 3) == 0)
+              or (i >= len(traces) - nsim and i % ctx.pick(8, 1) == 0)]
     rej_i = ctx.validate(implmod, sample, shard_size=ctx.pick(400, 3000), count=False)
     ctx.impl_drift = len(rej_i)
     ctx.extra["impl_traces_replayed"] = len(sample)
